@@ -60,12 +60,16 @@ def check_c08(tier, seed, log=print):
     n = decided = ties = 0
     unknown = 0
     samples = []
+    look_stats = dict(decided=0, ties=0, free=0)
     for i, c in enumerate(cases):
         cap = caps[i]
         if cap is None or cap.nodump or cap.verdict not in ('ACCEPT', 'REJECT'):
             continue
         n += 1
         v = ans.get((i, 'TIE'), '')
+        if c['family'] == 'c08-look' and v.startswith(('TIE', 'FREE')):
+            look_stats['decided'] += 1
+            look_stats['ties' if v.startswith('TIE') else 'free'] += 1
         nul = ans.get((i, 'NULLABLE'), '')
         classes = cap.err_classes()
         other = [x for x in classes if x != 'ambiguous']
@@ -81,12 +85,13 @@ def check_c08(tier, seed, log=print):
         derive_amb = any(g[0] == 2 for g in cap.gerrs)
         if v.startswith('TIE'):
             ties += 1
-            _, whex, tops = v.split(' ')
+            _, whex, tops = v.split(' ')[:3]
+            ctx = (v.split(' ') + [''])[3]
             tops = sorted(int(x) for x in tops.split(','))
             if len(samples) < 5:
-                samples.append(dict(definition=c['src'], witness_hex=whex, tied_leaves=tops, derive_errors=cap.errs[:2]))
+                samples.append(dict(definition=c['src'], witness_hex=whex, context=ctx, tied_leaves=tops, derive_errors=cap.errs[:2]))
             if not derive_amb:
-                run.violation('silent-choice', dict(definition=c['src'], witness_hex=whex, witness_text=bytes.fromhex(whex if whex != '-' else '').decode('utf-8', 'replace'),
+                run.violation('silent-choice', dict(definition=c['src'], witness_hex=whex, witness_context_prev_next=ctx, witness_text=bytes.fromhex(whex if whex != '-' else '').decode('utf-8', 'replace'),
                                                     tied_leaves=tops, derive_verdict=cap.verdict, derive_errors=cap.errs,
                                                     what='two patterns of equal top priority both match the witness, but the derive reports no ambiguity'),
                               key='silent|' + c['src'])
@@ -99,13 +104,13 @@ def check_c08(tier, seed, log=print):
         elif v.startswith('FREE'):
             if derive_amb:
                 run.violation('spurious-ambiguity', dict(definition=c['src'], derive_errors=cap.errs, closure=v,
-                                                         what='the derive reports an ambiguity but no string is matched by two top-priority patterns (tieFreeB_sound)'),
+                                                         what='the derive reports an ambiguity but no string is matched by two top-priority patterns (tieFreeB_sound / tieFreeCBFast_sound)'),
                               key='spurious|' + c['src'])
-    run.coverage.update(dict(evaluations=n, distinct_nontrivial=ties, decided=decided, undecided_or_lookaround=unknown,
+    run.coverage.update(dict(evaluations=n, distinct_nontrivial=ties, decided=decided, undecided_or_lookaround=unknown, lookaround_family=look_stats,
                              rule='definitions built from a pool of overlapping patterns (equal explicit, default and distinct priorities), random regex pairs and the lexer corpus; '
-                                  'the real derive\'s Disambiguation errors (captured with the leaves they name) vs the Lean tie search whose both answers are proved (tie_witness / tieFreeB_sound); non-trivial = a tie exists',
+                                  'the real derive\'s Disambiguation errors (captured with the leaves they name) vs the Lean tie search whose both answers are proved (tie_witness / tieFreeB_sound; tieC_witness / tieFreeCBFast_sound for patterns with look-around, where a tie is a string in a context); non-trivial = a tie exists',
                              samples=samples))
-    run.assumptions += ['look-around definitions and definitions with a nullable pattern (rejected earlier by the derive) are outside the comparison',
+    run.assumptions += ['definitions with a nullable pattern or without a universal start state (rejected earlier by the derive) are outside the comparison',
                         'quantifier over definitions is sampled; each decided definition is decided for all strings']
     return run.finish()
 
